@@ -14,10 +14,17 @@ RULE = ("formats = 40 fixed small ones + small formats drawn from the seed (opti
         "tokens at length 3, 10 at length 4), seeded random of length 3-6 over the whole alphabet.  (b) single-fault mutations of valid C01 lines (any spelling, groups included): an unknown long "
         "/ short option inserted between two items or appended to a group of flags, a required argument dropped, a surplus "
         "positional added, the value of a value-requiring option stripped, a typed value replaced by an unconvertible text, a "
-        "value attached to a flag - the oracle demands the error kind the statement fixes for that fault.  Non-trivial = reaches "
+        "value attached to a flag - the oracle demands the error kind the statement fixes for that fault; the unknown letter of a "
+        "group also behind 4 / 7 / 12 repeated flags, and the alphabet holds groups of 8 letters.  (c) typed values: for every "
+        "typed option (--name=T, -nT, --name T) and typed argument of every format, 45 texts that LOOK numeric (1e3, 2.0, .5, inf, "
+        "nan, 1e999, 0x1F, 1_0, ' 5', '+5', '-0', non-ASCII digits, 30 and 400 digits ...) and 20 that look boolean: where "
+        "CPython's int() / float() reject the text (booleans: texts no spelling table could accept) the oracle demands the "
+        "ValueError, the rest is compared with the model.  Non-trivial = reaches "
         "an error or sets a value; distinct by (format, mode, tokens)")
 TRUSTED = []
 ASSUMPTIONS = ["formats are valid (built through ArgsFormat), option/argument objects are valid (C07)",
+               "'a value that does not convert to the declared type' is read as: CPython's int() / float() reject the text (the declared "
+               "types are Python's); for booleans the oracle judges only texts outside any plausible table of spellings",
                "exhaustive depth is 2 over the whole alphabet and 3 (quick) / 4 (thorough) over a reduced one, not the 6 of the quantifier; lengths 3..6 are sampled"]
 
 EXTRA = ["zz", "z"]
